@@ -30,19 +30,20 @@ def main():
     try:
         if hasattr(mod, "generate_tables"):
             mod.generate_tables(ctx)
-        ok, out, dt = common.lake_build()
-        ctx.count("lake_build_s", round(dt, 1))
-        ctx.obligation("lake build (model, proofs, generated tables, driver)", ok)
+        ok_drv, out1, dt1 = common.lake_build(("Adc", "adcdrv"))
+        ok_prf, out2, dt2 = common.lake_build(("AdcProofs",))
+        ok, out = ok_drv and ok_prf, out1 + out2
+        ctx.count("lake_build_s", round(dt1 + dt2, 1))
+        ctx.obligation("lake build: model + native driver", ok_drv)
+        ctx.obligation("lake build: proofs (incl. lemmas over the tables regenerated from /repo)", ok_prf)
+        ctx.build_failed = not ok
         if not ok:
             ctx.notes.append("lake build failed: " + out[-1500:])
-            ctx.build_failed = True
             if hasattr(mod, "on_build_failure"):
                 mod.on_build_failure(ctx, out)
-        else:
-            ctx.build_failed = False
         if args.replay:
             return mod.replay(ctx, args.replay)
-        if ok or getattr(mod, "RUN_WITHOUT_BUILD", False):
+        if ok_drv:
             mod.run(ctx)
         return ctx.finish(**mod.finish_args(ctx))
     except Exception:
